@@ -534,8 +534,9 @@ def reassign(reg, d, prev=None):
     return reg
 
 
-def warm(reg):
-    """use the region before it is re-parametrised (anything cached must not survive)."""
+def warm(reg, last=None):
+    """use the region before it is re-parametrised (anything cached must not survive); `last` = arguments of a
+    final to_mask call (the very call the case under test repeats afterwards)."""
     from regions import PixCoord
     try:
         bb = reg.bounding_box
@@ -552,6 +553,11 @@ def warm(reg):
     except Exception:
         # the warm-up only creates history; whatever it raises is raised again (and judged) by the calls under test
         pass
+    if last:
+        try:
+            reg.to_mask(**last)
+        except Exception:
+            pass
 
 
 def build_case(case):
@@ -569,7 +575,7 @@ def build_case(case):
     if prev is None or d['kind'] not in HISTORY_KINDS or 'origin' in d:
         return build(d)
     reg = build(prev)
-    warm(reg)
+    warm(reg, case.get('warm_mask'))
     return reassign(reg, d, prev if case.get('only_changed', True) else None)
 
 
@@ -602,6 +608,9 @@ def add_history(rng, case, prob=0.2):
                 k = None
             if k == 'angle':
                 p[k] = [p[k][0] + {'deg': 90.0, 'rad': 1.5, 'arcmin': 5400.0, 'hourangle': 6.0}.get(p[k][1], 1.0) * rng.choice([1, -1, 0.37]), p[k][1]]
+            elif k == 'c' and rng.random() < 0.4:
+                # a move FAR below a pixel (within the tolerance of PixCoord's `==`): still another region
+                p[k] = [p[k][0] * (1 + 4e-6) + 3e-9, p[k][1] * (1 - 4e-6) - 3e-9]
             elif k == 'c':
                 p[k] = [p[k][0] + rng.choice([-3, 2.5, 7]), p[k][1] + rng.choice([-2, 4.5, 0])]
             elif k is not None and isinstance(p[k], (int, float)) and not isinstance(p[k], bool):
